@@ -77,3 +77,18 @@ fn("orm/session.py::Session._after_attach#lifecycle", cls="SessA", props=["C35"]
    modifies=["state.session_id", "state._strong_obj", "self._g_ev"])
 import pyvc.contract as _pc  # noqa: E402
 _pc.CLASSES["IStateL"].fields["modified"] = "bool"
+
+# ---- Session._before_attach / _save_impl: who may enter, and how a new object becomes pending
+_pc.CLASSES["SessA"].fields.update({"_new": "dict", "_g_autobegun": "bool"})
+_pc.CLASSES["SessA"].methods = {"_before_attach": "orm/session.py::Session._before_attach", "_after_attach": "orm/session.py::Session._after_attach#lifecycle",
+                                "_autobegin_t": "orm/session.py::Session._autobegin_t@a"}
+fn("orm/session.py::Session._autobegin_t@a", abstract=True, cls="SessA", params=["self"], returns="v", modifies=["self._g_autobegun"],
+   may_raise={"Exception": "True"}, notes="begins the session transaction; may raise (autobegin disabled)")
+fn("orm/session.py::Session._before_attach", cls="SessA", props=["C35"], returns="bool",
+   types={"state": "IStateL", "obj": "v", "_sessions": "dict"}, consts={"sa_exc.InvalidRequestError": "class"},
+   callees={"self.dispatch.before_attach": "noop", "state_str": "havoc:v"},
+   # an object that belongs to ANOTHER live session cannot be attached here (one session at a time)
+   raises={"InvalidRequestError": "state.session_id != self.hash_key and truth(state.session_id) and state.session_id in keys(_sessions)"},
+   may_raise={"Exception": "True"},
+   ensures=["result == (state.session_id != self.hash_key)", "state.session_id is old(state.session_id)"],
+   modifies=["self._g_autobegun"])
